@@ -1,9 +1,67 @@
 import Drivers.Proto
-/-! Model driver for property C12 (stub: no model operations registered yet). -/
-open Lean Proto
+import St4sd.Model.Restart
+/-! Model driver for property C12.
+
+Request: `{"op":"exec","old":bool,"fin":bool,"cfg":{maxRestarts:int|null,hookFileNamed,hookOn:[names],simulator,
+repeating,hookModule:"fallback"|"scripted"|"broken"},"inps":[{reason,hook,control,runFails,stable}]}`
+Answer: `{"events":[{code,restarts,resub,runs,shutdown}]}` (one per input, chronological). -/
+open Lean Proto St4sd.Restart
+
+def parseReason (s : String) : Except String Reason :=
+  match Reason.all.find? (fun r => r.name == s) with
+  | some r => pure r
+  | none => throw s!"unknown exit reason {s}"
+
+def parseCtx (s : String) : Except String RCtx :=
+  match RCtx.all.find? (fun r => r.name == s) with
+  | some r => pure r
+  | none => throw s!"unknown restart context {s}"
+
+def parseHook (s : String) : Except String HookAns :=
+  match s with
+  | "yes" => pure .yes
+  | "no" => pure .no
+  | "raises" => pure .raises
+  | "ioError" => pure .ioError
+  | "junk" => pure .junk
+  | _ => if s.startsWith "ctx:" then do return .ctx (← parseCtx (s.drop 4).toString) else throw s!"unknown hook answer {s}"
+
+def parseModule (s : String) : Except String HookModule :=
+  match s with
+  | "fallback" => pure .fallback
+  | "scripted" => pure .scripted
+  | "broken" => pure .broken
+  | _ => throw s!"unknown hook module kind {s}"
+
+def parseCfg (j : Json) : Except String Cfg := do
+  let mr ← match j.getObjVal? "maxRestarts" with
+    | .ok Json.null => pure none
+    | .ok v => do pure (some (← v.getInt?))
+    | .error _ => pure none
+  let on ← (← getStrList j "hookOn").mapM parseReason
+  return { maxRestarts := mr, hookFileNamed := ← getBool j "hookFileNamed", hookOn := on,
+           simulator := ← getBool j "simulator", repeating := ← getBool j "repeating",
+           hookModule := ← parseModule (← getStr j "hookModule") }
+
+def parseInp (j : Json) : Except String Inp := do
+  return { reason := ← parseReason (← getStr j "reason"), hook := ← parseHook (← getStr j "hook"),
+           control := ← getBool j "control", runFails := ← getBool j "runFails", stable := ← getBool j "stable" }
+
+def evJson (e : Ev) : Json :=
+  jobj [("code", jstr e.code.name), ("restarts", jnat e.st.restarts), ("resub", jnat e.st.resub),
+        ("runs", jnat e.st.runs), ("shutdown", jbool e.st.shutdown)]
 
 def handle (j : Json) : Except String Json := do
   let op ← getStr j "op"
-  throw s!"unknown op {op}"
+  match op with
+  | "exec" =>
+    let old ← getBool j "old"
+    let fin ← getBool j "fin"
+    let cfg ← parseCfg (← j.getObjVal? "cfg")
+    let inps ← (← getArr j "inps").mapM parseInp
+    let evs := if old then execOld fin cfg St.init inps else exec fin cfg St.init inps
+    return jobj [("events", jarr (evs.map evJson)), ("effMax", jint (effMax cfg)),
+                 ("schemaValid", jbool (schemaValid cfg))]
+  | _ => throw s!"unknown op {op}"
 
 def main : IO Unit := serve handle
